@@ -114,6 +114,7 @@ inline KeySpec gen_key(const std::string &what) {  // fresh key via OpenSSL (tho
 struct JwkOpts {
   bool priv = true;
   std::string alg;        // "" = no alg member
+  std::string alg_raw;    // raw JSON text for the alg member (e.g. 256: the item is flagged "Invalid alg type" AFTER its key material was loaded)
   std::string kid;        // "" = none
   std::string use;        // "" = none
   std::string key_ops;    // raw JSON array text, "" = none
@@ -150,6 +151,7 @@ inline std::string jwk_json(const KeySpec &k, const JwkOpts &o) {
     if (o.priv) { l = sizeof buf; EVP_PKEY_get_raw_private_key(k.pkey, buf, &l); add("d", std::string((char *)buf, l)); }
   }
   if (!o.alg.empty()) m += ",\"alg\":" + jutf8(o.alg);
+  else if (!o.alg_raw.empty()) m += ",\"alg\":" + o.alg_raw;
   if (!o.kid.empty()) m += ",\"kid\":" + jutf8(o.kid);
   if (!o.use.empty()) m += ",\"use\":" + jutf8(o.use);
   if (!o.key_ops.empty()) m += ",\"key_ops\":" + o.key_ops;
